@@ -56,7 +56,10 @@ def import_eups():
         p = os.path.join(REPO, "python")
         if p not in sys.path:
             sys.path.insert(0, p)
+        # never read or write byte-code caches: a stale __pycache__ entry (same size, same mtime second)
+        # must not be able to hide an edit of the source under test
         sys.dont_write_bytecode = True
+        sys.pycache_prefix = os.path.join(WORK, "no-pycache-%d" % os.getpid())
         import eups  # noqa: F401
         f = os.path.abspath(sys.modules["eups"].__file__)
         assert f.startswith(os.path.abspath(p) + os.sep), "eups imported from %s, not %s" % (f, p)
@@ -211,12 +214,12 @@ hooks.config.Eups.globalTags += [%(tags)s]
 """
 
 
-def mkstacks(root, nstacks=1, extra_tags=("beta",), default_product=False, users=("A",)):
-    """Create empty stacks root/stack0.. and one EUPS_USERDATA per user; point the environment at
-    them (user users[0]).  Returns (stacks, {user: userdata})."""
+def mkstacks(root, nstacks=1, extra_tags=("beta",), default_product=False, users=("A",), names=None):
+    """Create empty stacks root/stack0.. (or root/<names[i]>) and one EUPS_USERDATA per user; point the
+    environment at them (user users[0]).  Returns (stacks, {user: userdata})."""
     stacks = []
     for i in range(nstacks):
-        s = os.path.join(root, "stack%d" % i)
+        s = os.path.join(root, names[i] if names else "stack%d" % i)
         os.makedirs(os.path.join(s, "ups_db"))
         stacks.append(s)
     uds = {}
